@@ -574,7 +574,10 @@ def classify(F: Flat, frames, where, i, observed):
         if len(holders) >= 2:
             inner = max(holders, key=lambda s: depth[s])
             for s in holders:
-                if s != inner and observed is not None and observed in frames[s]["p"][n]:
+                # the innermost frame that has the name as a procedure does not hold FORD's entity
+                # (the same entity use-associated at two levels is not a shadowing failure)
+                if s != inner and observed is not None and observed in frames[s]["p"][n] \
+                        and observed not in frames[inner]["p"][n]:
                     return "C07-host-procedure-beats-local"
         # (3) all_procs is consulted before all_absinterfaces whatever the nesting: an abstract
         #     interface of an inner frame is hidden by a procedure of an outer frame
